@@ -193,6 +193,7 @@ type runner struct {
 	rreq             chan<- time.Time
 	delay            chan struct{}
 	delayReleased    bool
+	delayMu          sync.Mutex // delayReleased (the client and, with fill_err_release, a filler)
 	notifier         chan interface{}
 	bars             []*mpb.Bar
 	barsMu           sync.RWMutex
@@ -710,6 +711,15 @@ func (r *runner) buildBarOptions(idx int) (mpb.BarFiller, []mpb.BarOption) {
 		r.mu.Unlock()
 		if spec.FillErrAt > 0 && int(k) == spec.FillErrAt {
 			r.event("client.fillerr", idx, nil)
+			if spec.FillErrRelease {
+				r.delayMu.Lock()
+				if r.delay != nil && !r.delayReleased {
+					r.delayReleased = true
+					r.event("client.release", 0, nil)
+					close(r.delay)
+				}
+				r.delayMu.Unlock()
+			}
 			return fmt.Errorf("%w bar=%d", ErrInjectedFill, idx)
 		}
 		return base.Fill(w, s)
@@ -1090,9 +1100,14 @@ func (r *runner) scenario() {
 	if !r.cancelled.Load() {
 		r.finishBars()
 	}
-	if cfg.Delay && !cfg.DelayNever && !r.delayReleased && !r.cancelled.Load() {
-		// (a cancelled container must stop even if its render delay never ends)
+	r.delayMu.Lock()
+	pendingDelay := !r.delayReleased
+	if cfg.Delay && !cfg.DelayNever && pendingDelay && !r.cancelled.Load() {
 		r.delayReleased = true
+	}
+	r.delayMu.Unlock()
+	if cfg.Delay && !cfg.DelayNever && pendingDelay && !r.cancelled.Load() {
+		// (a cancelled container must stop even if its render delay never ends)
 		r.event("client.release", 1, nil)
 		close(r.delay)
 		// (as in the "release" step: make sure the container has taken the release
@@ -1646,8 +1661,13 @@ func (r *runner) runStepC(st *Step, idx, depth, client int) {
 		r.p.Shutdown()
 		r.noteRunningAfterCancel()
 	case "release":
-		if r.delay != nil && !r.delayReleased {
+		r.delayMu.Lock()
+		pendingDelay := r.delay != nil && !r.delayReleased
+		if pendingDelay {
 			r.delayReleased = true
+		}
+		r.delayMu.Unlock()
+		if pendingDelay {
 			r.event("client.release", 0, nil)
 			close(r.delay)
 			// the container picks the release up in its select loop, where it competes
